@@ -509,6 +509,23 @@ func F4(cfg Cfg, yield func(*Case)) {
 					refs = append(refs, r)
 				}
 				yield(&Case{Family: "F4", Cfg: cfg, Min: min, Max: min + 2, Refs: refs, Note: fmt.Sprintf("share=%d,n=%d", share, n)})
+				if n >= 5 {
+					// a run of ADJACENT refs with the same plain value, crossing block boundaries
+					var run []refdb.Ref
+					for i := 0; i < n; i++ {
+						r := refdb.Ref{Name: fmt.Sprintf("refs/tags/v%03d", i), UpdateIndex: min + uint64(i%3), Kind: 1}
+						switch {
+						case i >= n/4 && i < 3*n/4:
+							r.Value = oids[0]
+						case i == 0:
+							r.Value = oids[1]
+						default:
+							r.Value = Oid(fmt.Sprintf("uniq%d", i), hs)
+						}
+						run = append(run, r)
+					}
+					yield(&Case{Family: "F4", Cfg: cfg, Min: min, Max: min + 2, Refs: run, Note: fmt.Sprintf("run,share=%d,n=%d", share, n)})
+				}
 			}
 		}
 	}
